@@ -237,6 +237,11 @@ def handle (j : Json) : R Json := do
     let mxres := match cdt, mxnode with
       | some c, some (.ok _) => bind mxsent (fun jv => ofExcept (echoCommand dt c jv))
       | _, _ => none
+    -- an error update (`updateValue(…, readerror)`): `str(entry)` is `repr(readerror)`, whatever the type
+    let rerr := (j.getObjVal? "rerr").toOption.bind (fun x => x.getStr?.toOption)
+    let metext : Option (Out Text) := match cdt, mcval, rerr with
+      | some c, some (.ok _), some r => some (ofOption (CacheItem.str L c ⟨.none, some r⟩))
+      | _, _, _ => none
     -- ---- the implementation, judged ------------------------------------------------------
     let iexp ← io jvalOfJson "exp"; let inode ← io pvalOfJson "node"; let iclient ← io pvalOfJson "client"
     let itext ← io textOfJson "text"; let iback ← io pvalOfJson "back"; let iagain ← io textOfJson "again"
@@ -297,7 +302,8 @@ def handle (j : Json) : R Json := do
         ("cagain", outToJson textToJson mcagain), ("sent", outToJson jvalToJson msent),
         ("cnode", outToJson pvalToJson mcnode), ("vsent", outToJson jvalToJson mvsent),
         ("vnode", outToJson pvalToJson mvnode), ("xsent", outToJson jvalToJson mxsent),
-        ("xnode", outToJson pvalToJson mxnode), ("xres", outToJson pvalToJson mxres)]),
+        ("xnode", outToJson pvalToJson mxnode), ("xres", outToJson pvalToJson mxres),
+        ("etext", outToJson textToJson metext)]),
       ("judge", jstrs verdict), ("b64", .bool b64ok)]
   | _ => throw s!"C02: unknown verb {k}"
 
